@@ -37,6 +37,8 @@ type Document struct {
 	footnoteManager *FootnoteManager
 	// 列表编号管理器（按文档独立）
 	numberingManager *NumberingManager
+	// word/styles.xml 是否由本文档的样式管理器生成（而不是从已有文件/模板中保留下来的）
+	stylesGenerated bool
 }
 
 // Body 表示文档主体
@@ -3097,7 +3099,9 @@ func (d *Document) serializeStyles() error {
 
 	// 如果在克隆文档时已经保留了完整的 styles.xml（含 docDefaults 等信息），
 	// 这里直接跳过重新生成，避免丢失模板原有的默认段落/字符设置。
-	if existing, ok := d.parts["word/styles.xml"]; ok && len(existing) > 0 {
+	// 只有从已有文件/模板保留下来的 styles.xml 才原样保留；由本文档的样式管理器生成的
+	// styles.xml 每次保存都要重新生成，否则首次保存之后新增或修改的样式不会被写入。
+	if existing, ok := d.parts["word/styles.xml"]; ok && len(existing) > 0 && !d.stylesGenerated {
 		Debugf("检测到已有 styles.xml，跳过样式重建以保留模板默认样式")
 		return nil
 	}
@@ -3143,6 +3147,7 @@ func (d *Document) serializeStyles() error {
 
 	// 添加XML声明
 	d.parts["word/styles.xml"] = append([]byte(xml.Header), data...)
+	d.stylesGenerated = true
 
 	Debugf("样式序列化完成")
 	return nil
